@@ -68,34 +68,51 @@ def _std_lean_path():
 
 def translate(pyx=False):
     try:
-        return (py2lean.generate_pyx(REPO) if pyx else py2lean.generate(REPO)), None
+        fn = {False: py2lean.generate, True: py2lean.generate_pyx, 'classes': py2lean.generate_classes,
+              'classes2': py2lean.generate_classes2, 'isilen': py2lean.generate_isi_lengths}[pyx]
+        return fn(REPO), None
     except py2lean.Untranslatable as ex:
         return None, str(ex)
     except (SyntaxError, OSError) as ex:
         return None, 'source could not be read: %r' % ex
 
 
-def refine_modules(pyx):
-    """proof modules to re-check, in dependency order: the listed ones plus every helper module of the
-    same family present in Proofs/GenRefine (Pyx*.lean for the Cython family)"""
-    d = os.path.join(LEAN_DIR, 'PySpikeVerif', 'Proofs', 'GenRefine')
-    present = sorted(f[:-5] for f in os.listdir(d) if f.endswith('.lean'))
-    fam = [m for m in present if m.startswith('Pyx')] if pyx else [m for m in present if not m.startswith('Pyx')]
-    mods = ['PySpikeVerif.Proofs.GenRefine.' + m for m in fam]
-    # topological order by the import lines
-    imp = {}
-    for m in mods:
-        txt = open(_mod_path(m)).read()
-        imp[m] = [l.split()[1] for l in txt.split('\n') if l.startswith('import ') and l.split()[1] in mods]
+GEN_MODULE = {False: 'Backend', True: 'BackendPyx', 'classes': 'Classes', 'classes2': 'Classes2', 'isilen': 'IsiLengths'}
+
+
+def _imports_of(path):
+    return [l.split()[1] for l in open(path).read().split('\n') if l.startswith('import ') and len(l.split()) > 1]
+
+
+def dependents(gen_mod):
+    """every library module that (transitively) imports PySpikeVerif.Gen.<gen_mod>, in dependency order;
+    the root file PySpikeVerif.lean is not a proof module and is left out"""
+    root = os.path.join(LEAN_DIR, 'PySpikeVerif')
+    mods = {}
+    for d, _, files in os.walk(root):
+        for f in files:
+            if f.endswith('.lean'):
+                m = 'PySpikeVerif.' + os.path.relpath(os.path.join(d, f), root)[:-5].replace(os.sep, '.')
+                mods[m] = [i for i in _imports_of(os.path.join(d, f)) if i.startswith('PySpikeVerif.')]
+    target = 'PySpikeVerif.Gen.' + gen_mod
+    memo = {}
+    def dep(m):
+        if m == target:
+            return True
+        if m not in memo:
+            memo[m] = False
+            memo[m] = any(dep(i) for i in mods.get(m, []))
+        return memo[m]
     order, seen = [], set()
     def visit(m):
-        if m in seen:
+        if m in seen or m not in mods:
             return
         seen.add(m)
-        for q in imp[m]:
+        for q in mods[m]:
             visit(q)
-        order.append(m)
-    for m in mods:
+        if m != target and dep(m):
+            order.append(m)
+    for m in sorted(mods):
         visit(m)
     return order
 
@@ -104,7 +121,9 @@ def recheck(text, pyx=False):
     """compile the regenerated text and the refinement proofs in a scratch directory"""
     h = hashlib.sha256(text.encode()).hexdigest()[:16]
     scratch = os.path.join(BUILD, 'gen', h)
-    gen_mod = 'BackendPyx' if pyx else 'Backend'
+    gen_mod = GEN_MODULE[pyx]
+    todo = dependents(gen_mod)
+    stale_files = {os.path.join(*m.split('.')) + '.' for m in todo} | {os.path.join('PySpikeVerif', 'Gen', gen_mod) + '.'}
     src = os.path.join(scratch, 'PySpikeVerif', 'Gen', gen_mod + '.lean')
     # Lean resolves a module through the first search-path entry that contains its root package, so the
     # scratch directory has to offer the whole library: symlinks to the compiled files of the normal
@@ -116,9 +135,7 @@ def recheck(text, pyx=False):
         for root, _, files in os.walk(os.path.join(scratch, 'PySpikeVerif')):
             for fn in files:
                 rel = os.path.relpath(os.path.join(root, fn), scratch)
-                stale = rel.startswith(os.path.join('PySpikeVerif', 'Gen', gen_mod + '.')) \
-                    or rel.startswith(os.path.join('PySpikeVerif', 'Properties', 'GenRefine')) \
-                    or (os.sep + 'GenRefine' + os.sep in rel and (not pyx or os.path.basename(rel).startswith('Pyx')))
+                stale = any(rel.startswith(p_) for p_ in stale_files)
                 if stale:
                     os.remove(os.path.join(root, fn))
     os.makedirs(os.path.dirname(src), exist_ok=True)
@@ -145,10 +162,6 @@ def recheck(text, pyx=False):
         out['backend_error'] = msg
         return out
     failed = set()
-    # a change of the Python backend invalidates both proof families (the Pyx proofs import Defs, which
-    # imports Gen.Backend); a change of the .pyx sources only the Pyx family
-    families = [True] if pyx else [False, True]
-    todo = [m for fam in families for m in refine_modules(fam)]
     for mod in todo:
         path = _mod_path(mod)
         imports = [l.split()[1] for l in open(path).read().split('\n') if l.startswith('import ')]
@@ -331,3 +344,153 @@ def gen_tie_pyx(tier, rng):
         res['translator_validation'] = {'error': repr(ex)[:300]}
     res['seconds'] = round(time.time() - t0, 1)
     return res
+
+
+COMMITTED_CLS = os.path.join(LEAN_DIR, 'PySpikeVerif', 'Gen', 'Classes.lean')
+CLS_OPS = {'pwc_integral_all', 'pwc_integral', 'pwc_avrg_all', 'pwc_avrg', 'pwc_call', 'pwl_integral_all', 'pwl_integral',
+           'pwl_avrg_all', 'pwl_avrg', 'pwl_call', 'disc_integral_all', 'disc_integral'}
+
+
+def validate_classes(tier, rng, lean_path=None, cap=None):
+    """methods generated from the function classes vs the real methods"""
+    from . import suites, adapters
+    cap = cap or (3000 if tier == 'quick' else 20000)
+    cases = [(op, f) for op, f, _ in suites.SUITES['f-func'](tier, rng) if op in CLS_OPS]
+    if len(cases) > cap:
+        step = len(cases) / float(cap)
+        cases = [cases[int(k * step)] for k in range(cap)]
+    lines = [line_of(op, f) for op, f in cases]
+    answers = run_gen(lines, lean_path, driver='GenClsMain.lean')
+    dis, n, per_op = [], 0, {}
+    for (op, f), line, ans in zip(cases, lines, answers):
+        g = parse_out(ans)
+        try:
+            r = adapters.run_real(op, f)
+        except adapters.Mutated as ex:
+            dis.append({'request': line, 'generated': ans[:300], 'implementation': 'input-modified', 'difference': str(ex)})
+            continue
+        n += 1
+        per_op[op] = per_op.get(op, 0) + 1
+        why = compare(g, r, adapters.exact_fields(op, len(g) if not isinstance(g, str) else 0))
+        if why is not None:
+            dis.append({'request': line, 'generated': ans[:300], 'implementation': str(r)[:300], 'difference': why})
+            if len(dis) >= 10:
+                break
+    return {'evaluated': n, 'skipped': None, 'disagreements': dis, 'per_op': per_op}
+
+
+def gen_tie_classes(tier, rng):
+    """the same tie for the methods of the three function classes (C05, C10, C11)"""
+    t0 = time.time()
+    res = {'translator': 'harness/py2lean.py (class mode: methods specialised by the kind of their argument)',
+           'sources': ['pyspike/PieceWiseConstFunc.py', 'pyspike/PieceWiseLinFunc.py', 'pyspike/DiscreteFunc.py'],
+           'methods': ['integral(None)', 'integral((a,b))', 'avrg(None)', 'avrg((a,b))', '__call__(t)']}
+    text, err = translate(pyx='classes')
+    if text is None:
+        res.update(status='untranslatable', reason=err, note='the current class sources leave the translated subset; the generated tie is unavailable')
+        return res
+    committed = open(COMMITTED_CLS).read() if os.path.exists(COMMITTED_CLS) else None
+    lean_path = None
+    if text == committed:
+        res['status'] = 'identical'
+        res['note'] = 'regenerated text = committed Gen/Classes.lean (sha256 %s)' % hashlib.sha256(text.encode()).hexdigest()[:16]
+    else:
+        res['status'] = 'changed'
+        rc = recheck(text, pyx='classes')
+        res['recheck'] = {k: v for k, v in rc.items() if k != 'lean_path'}
+        if not rc.get('backend_compiles'):
+            res.update(status='untranslatable', reason='regenerated text does not compile')
+            return res
+        lean_path = rc['lean_path']
+        res['refinement_broken'] = [m for m, s_ in rc['modules'].items() if s_ != 'checks']
+        res['note'] = 'the class sources changed; refinement proofs re-checked against the regenerated model: %d of %d still check' % (
+            sum(1 for s_ in rc['modules'].values() if s_ == 'checks'), len(rc['modules']))
+    try:
+        v = validate_classes(tier, rng, lean_path)
+        res['translator_validation'] = {'evaluated': v['evaluated'], 'per_op': v['per_op'], 'skipped': v['skipped'], 'disagreements': v['disagreements'][:5]}
+        if v['disagreements']:
+            res['status_validation'] = 'generated model does NOT reproduce the implementation on %d of the cases (first: %s)' % (
+                len(v['disagreements']), v['disagreements'][0]['request'])
+    except Exception as ex:
+        res['translator_validation'] = {'error': repr(ex)[:300]}
+    res['seconds'] = round(time.time() - t0, 1)
+    return res
+
+
+def _family(key, committed_path, label, sources, validate):
+    """generic: translate → compare → (changed: re-check dependents) → validate"""
+    t0 = time.time()
+    res = {'translator': 'harness/py2lean.py', 'sources': sources, 'generated_file': os.path.relpath(committed_path, VERIF)}
+    text, err = translate(pyx=key)
+    if text is None:
+        res.update(status='untranslatable', reason=err, note='the current source leaves the translated subset; the generated tie (%s) is unavailable' % label)
+        return res
+    committed = open(committed_path).read() if os.path.exists(committed_path) else None
+    lean_path = None
+    if text == committed:
+        res['status'] = 'identical'
+        res['note'] = 'regenerated text = committed file (sha256 %s)' % hashlib.sha256(text.encode()).hexdigest()[:16]
+    else:
+        res['status'] = 'changed'
+        rc = recheck(text, pyx=key)
+        res['recheck'] = {k: v for k, v in rc.items() if k != 'lean_path'}
+        if not rc.get('backend_compiles'):
+            res.update(status='untranslatable', reason='regenerated text does not compile')
+            return res
+        lean_path = rc['lean_path']
+        res['refinement_broken'] = [m for m, s_ in rc['modules'].items() if s_ != 'checks']
+        res['note'] = 'the source changed; proofs depending on the generated file re-checked against the regenerated text: %d of %d still check' % (
+            sum(1 for s_ in rc['modules'].values() if s_ == 'checks'), len(rc['modules']))
+    if validate is not None:
+        try:
+            v = validate(lean_path)
+            res['translator_validation'] = {'evaluated': v['evaluated'], 'per_op': v['per_op'], 'disagreements': v['disagreements'][:5]}
+            if v['disagreements']:
+                res['status_validation'] = 'generated model does NOT reproduce the implementation on %d of the cases (first: %s)' % (
+                    len(v['disagreements']), v['disagreements'][0]['request'])
+        except Exception as ex:
+            res['translator_validation'] = {'error': repr(ex)[:300]}
+    res['seconds'] = round(time.time() - t0, 1)
+    return res
+
+
+def _validate_ops(cases, lean_path, driver):
+    from . import adapters
+    lines = [line_of(op, f) for op, f in cases]
+    answers = run_gen(lines, lean_path, driver=driver)
+    dis, n, per_op = [], 0, {}
+    for (op, f), line, ans in zip(cases, lines, answers):
+        g = parse_out(ans)
+        try:
+            r = adapters.run_real(op, f)
+        except adapters.Mutated as ex:
+            dis.append({'request': line, 'generated': ans[:300], 'implementation': 'input-modified', 'difference': str(ex)})
+            continue
+        n += 1
+        per_op[op] = per_op.get(op, 0) + 1
+        why = compare(g, r, adapters.exact_fields(op, len(g) if not isinstance(g, str) else 0))
+        if why is not None:
+            dis.append({'request': line, 'generated': ans[:300], 'implementation': str(r)[:300], 'difference': why})
+            if len(dis) >= 10:
+                break
+    return {'evaluated': n, 'disagreements': dis, 'per_op': per_op}
+
+
+def gen_tie_plottable(tier, rng):
+    """DiscreteFunc.get_plottable_data (Gen/Classes2.lean), C11"""
+    from . import suites
+    def val(lean_path):
+        cases = [(op, f) for op, f, _ in suites.SUITES['f-func'](tier, rng) if op == 'disc_plot'][:(1500 if tier == 'quick' else 8000)]
+        return _validate_ops(cases, lean_path, 'GenClsMain.lean')
+    return _family('classes2', os.path.join(LEAN_DIR, 'PySpikeVerif', 'Gen', 'Classes2.lean'), 'get_plottable_data',
+                   ['pyspike/DiscreteFunc.py (get_plottable_data)'], val)
+
+
+def gen_tie_isi_lengths(tier, rng):
+    """pyspike/isi_lengths.py: isi_lengths (Gen/IsiLengths.lean), C15"""
+    from . import gens
+    def val(lean_path):
+        cases = [(op, f) for op, f, _ in gens.isi_lengths_grid(5 if tier == 'quick' else 7) if op == 'isi_lengths']
+        return _validate_ops(cases, lean_path, 'GenClsMain.lean')
+    return _family('isilen', os.path.join(LEAN_DIR, 'PySpikeVerif', 'Gen', 'IsiLengths.lean'), 'isi_lengths',
+                   ['pyspike/isi_lengths.py (isi_lengths)'], val)
